@@ -39,6 +39,12 @@ let parse_op s : int * ns_ev =
   | 'T', [sid; mid] -> (int_of_string sid, NsTick (zi mid))
   | 'P', [sid; tok] | 'P', [sid; tok; _] -> (int_of_string sid, NsSep (zi tok))
   | 'U', [sid] -> (int_of_string sid, NsUp)
+  (* B: a malformed answer with the id <mid>.  An ACK whose code has an invalid class (kind 1) or is
+     a request code (kind 2) ends the exchange like a Reset does (node off the queue, slot released,
+     flush; the application hears NACK BAD_RESPONSE instead of NACK RST; nothing for an unknown id).
+     A NON with an invalid class (kind 4) carries an id of the PEER's id space: nothing happens. *)
+  | 'B', [sid; mid; ("1" | "2")] -> (int_of_string sid, NsRst (zi mid))
+  | 'B', [sid; _; _] -> (int_of_string sid, NsSep (zi "-1"))
   (* M: a multicast request arrives, its response waits in the send queue: nothing observable,
      nothing of the accounting changes (= cancel by a token nobody uses).
      Y: that delayed response is sent and coap_session_connected() is called: for the
@@ -129,6 +135,12 @@ let ns toks =
           else begin
             let (sid, ev) = parse_op op in
             let outs = step sid ev in
+            let is_b = op.[0] = 'B' in
+            let outs = if not is_b then outs else
+              List.filter_map (fun o -> match o with
+                | NsNack (_, mid, true) -> Some (NsNack (z_of_int 5, mid, true))
+                | NsNack (_, _, false) -> None
+                | _ -> Some o) outs in
             let nested =
               match (match ev with NsFail _ -> None | _ -> hook_for hooks sid outs) with
               | None -> []
